@@ -133,6 +133,7 @@ class PingPong:
         self.turn = 'A'
         self.done = set()
         self.switches = 0
+        self.timed_out = False      # wall-clock watchdog fired: the run decides nothing
 
     def pause(self, me, other):
         with self.cond:
@@ -140,13 +141,15 @@ class PingPong:
             self.switches += 1
             self.cond.notify_all()
             while self.turn != me and other not in self.done:
-                if not self.cond.wait(timeout=20):
+                if not self.cond.wait(timeout=60):
+                    self.timed_out = True
                     break
 
     def begin(self, me, other):
         with self.cond:
             while self.turn != me and other not in self.done:
-                if not self.cond.wait(timeout=20):
+                if not self.cond.wait(timeout=60):
+                    self.timed_out = True
                     break
 
     def finish(self, me, other):
@@ -178,6 +181,10 @@ def check():
     for item in threads:
         item.join(120)
     violations = []
+    if table.timed_out or any(item.is_alive() for item in threads):
+        # a hand-over did not happen within a minute (overloaded machine, or the simulations
+        # block each other): no verdict from this scenario - wall-clock never decides
+        return [], {'overlap_canary_runs': 1, 'overlap_canary_inconclusive': 1}
     for name in ('A', 'B'):
         got = logs.get(name)
         if got != alone:
